@@ -40,6 +40,7 @@ type ScriptOpts struct {
 	Missing   bool    // include MissingNodes calls as steps
 	Empty     bool    // include colluding empty-proposal ballots
 	SufChange float64 // probability per height that the suffrage changes (a join or a leave)
+	Stale     bool    // late ballots and sign facts for stage points the script went through long ago (one, two and more stages back)
 	PermHide  float64 // probability per height that the suffrage of the previous voteproofs' height is hidden (revealed late or never)
 }
 
@@ -54,6 +55,7 @@ type Gen struct {
 	exSeq   int
 	// last voteproof round per height that the flow steered to a majority
 	acceptRound map[base.Height]base.Round
+	past        []stageCtx // every stage the flow went through, oldest first
 }
 
 func NewGen(w *World, rng *rand.Rand, o ScriptOpts) *Gen {
@@ -479,6 +481,12 @@ func (g *Gen) noise(c stageCtx) {
 			m, _ := g.anyMember(h)
 			g.add(g.scBallot(m, c.p, "A", ex, "", "sc-noise", true))
 		}
+	case 13:
+		if g.O.Stale && len(g.past) > 0 {
+			g.stale(1 + r.Intn(len(g.past)))
+		} else {
+			g.add(Step{Op: "count", Desc: "count"})
+		}
 	default:
 		g.add(Step{Op: "count", Desc: "count"})
 	}
@@ -548,6 +556,23 @@ func (g *Gen) stage(c stageCtx, draw bool) {
 	if r.Intn(3) == 0 {
 		g.add(Step{Op: "count", Desc: "count"})
 	}
+	g.past = append(g.past, c)
+}
+
+// stale adds a late ballot (or bare sign fact) for a stage the flow finished
+// `back` stages ago: the ballotbox has usually released that stage point.
+func (g *Gen) stale(back int) {
+	if back < 1 || back > len(g.past) {
+		return
+	}
+	c := g.past[len(g.past)-back]
+	m, _ := g.anyMember(c.p.Height())
+	variant := []string{"A", "A", "B"}[g.R.Intn(3)]
+	st := g.voteStep(c, m, variant, "", fmt.Sprintf("stale:%d-stages-back", back), true)
+	if c.stage != "sc" && c.ex == nil && g.R.Intn(2) == 0 {
+		st = asSignFact(st)
+	}
+	g.add(st)
 }
 
 // Flow generates the script: Heights consecutive heights, each with rounds of
@@ -564,6 +589,14 @@ func (g *Gen) Flow() []Step {
 	var lateReveal []base.Height
 	for hi := 1; hi <= g.O.Heights; hi++ {
 		h := w.H0 + base.Height(hi)
+		if g.O.Stale && len(g.past) > 0 {
+			// late arrivals for stages of earlier heights: one stage back, two, and more
+			for _, back := range []int{1, 2, 3 + r.Intn(len(g.past))} {
+				if r.Intn(3) > 0 {
+					g.stale(back)
+				}
+			}
+		}
 		if r.Float64() < g.O.PermHide {
 			// the suffrage that decided the previous height (the one embedded
 			// voteproofs of height h-1 are to be judged with) is not known to
@@ -617,6 +650,11 @@ func (g *Gen) Flow() []Step {
 				break
 			}
 			round++
+		}
+	}
+	if g.O.Stale {
+		for back := 1; back <= len(g.past); back += 1 + r.Intn(2) {
+			g.stale(back)
 		}
 	}
 	g.add(Step{Op: "count", Desc: "final count"})
